@@ -55,6 +55,8 @@ type Entry struct {
 	Models  map[string]string  `json:"models"`
 	Watch   map[string]string  `json:"watch"`
 	Timeout int                `json:"replay_timeout_s"`
+	Package string             `json:"package"` // overrides the spec's package for this entry
+	Dir     string             `json:"dir"`
 }
 
 type Spec struct {
@@ -327,8 +329,12 @@ func cmdCheck(args []string) int {
 		for k, v := range e.Models {
 			models[k] = v
 		}
+		pkgPath := spec.Package
+		if e.Package != "" {
+			pkgPath = e.Package
+		}
 		cfg := interp.ExploreConfig{
-			PkgPath: spec.Package, Entry: e.Name, Bounds: boundsFor(tc), Workers: *workers, Solver: *solver,
+			PkgPath: pkgPath, Entry: e.Name, Bounds: boundsFor(tc), Workers: *workers, Solver: *solver,
 			InitExtra: spec.InitExtra, InitSkip: spec.InitSkip, Models: models, Known: knownSet, Verbose: *verbose, Trace: *trace,
 			Params: tc.Params, Watch: e.Watch, SolverLog: *solverLog, Seed: seed,
 		}
@@ -580,9 +586,16 @@ func nativeReplay(spec *Spec, dir string, e Entry, replayPath, kind, label strin
 	if timeout <= 0 {
 		timeout = 20
 	}
-	pkgName := filepath.Base(spec.Package)
+	pkgPath, pkgDir := spec.Package, spec.Dir
+	if e.Package != "" {
+		pkgPath, pkgDir = e.Package, e.Dir
+	}
+	pkgName := filepath.Base(pkgPath)
 	if pkgName == "v3" {
 		pkgName = "martian"
+	}
+	if n, ok := pkgNames[pkgPath]; ok {
+		pkgName = n
 	}
 	test := fmt.Sprintf(`//go:build verif && verifnative
 
@@ -618,10 +631,10 @@ func TestVerifReplay(t *testing.T) {
 `, pkgName, e.Name, timeout/2+1)
 	testFile := filepath.Join(tmp, "replay_test.go")
 	os.WriteFile(testFile, []byte(test), 0o644)
-	ovPaths[filepath.Join(repoDir, spec.Dir, "zz_verif_replay_test.go")] = testFile
+	ovPaths[filepath.Join(repoDir, pkgDir, "zz_verif_replay_test.go")] = testFile
 	ovJSON := filepath.Join(tmp, "overlay.json")
 	writeJSON(ovJSON, map[string]interface{}{"Replace": ovPaths})
-	cmd := exec.Command("go", "test", "-tags", "verif verifnative", "-vet=off", "-count=1", "-overlay", ovJSON, "-run", "^TestVerifReplay$", "-v", "./"+spec.Dir)
+	cmd := exec.Command("go", "test", "-tags", "verif verifnative", "-vet=off", "-count=1", "-overlay", ovJSON, "-run", "^TestVerifReplay$", "-v", "./"+pkgDir)
 	cmd.Dir = repoDir
 	cmd.Env = append(os.Environ(), "GOFLAGS=-mod=mod", "GOPROXY=off", "GOSUMDB=off", "GOTOOLCHAIN=local", "VERIF_REPLAY="+replayPath)
 	var out bytes.Buffer
@@ -652,6 +665,12 @@ func TestVerifReplay(t *testing.T) {
 		return true, o
 	}
 	return false, o
+}
+
+// pkgNames maps import paths to package names where they differ from the last path element.
+var pkgNames = map[string]string{
+	"github.com/google/martian/v3":           "martian",
+	"github.com/google/martian/v3/martianlog": "martianlog",
 }
 
 func cmdReplay(args []string) int {
